@@ -43,6 +43,8 @@ OPTIONS = {
     "piece-length": ("--piece-length", "piece-length", "piece_length", "value:15"),
     "meta-version": ("--meta-version", "meta-version", "meta_version", "value:2"),
     "out": ("--out", "out", "outfile", "value:/out/other.torrent"),
+    "out-dir": ("--out", "out", "outfile", "value:/out/"),                 # the documented directory form: <dir>/<name>.torrent
+    "out-relative": ("-o", "out", "outfile", "value:sub/rel.torrent"),
 }
 
 
@@ -60,6 +62,8 @@ def jobs(tier):
             out.append(("route.%s.v%s" % (opt, mv), "job_route", dict(opt=opt, mv=mv)))
     for mv in ("1", "3"):
         out.append(("out-inside-content.v%s" % mv, "job_out_inside", dict(mv=mv)))
+    for mv in ("1", "2"):
+        out.append(("config-rewritten-between-creates.v%s" % mv, "job_config_twice", dict(mv=mv, twice=True)))
     import itertools
     for i, order in enumerate(itertools.permutations(["announce", "web-seed", "http-seed"])):
         out.append(("swallow.%s" % "-".join(o[0] for o in order), "job_swallow", dict(order=list(order), nvals=1 + i % 2)))
@@ -72,6 +76,7 @@ def mkfs(E):
     fs.add("/data/name", ("f", 0), s)
     fs.mkdirs("/out")
     fs.mkdirs("/cfg")
+    fs.mkdirs("/work/sub")
     return fs, s
 
 
@@ -210,10 +215,12 @@ def job_route(E, opt, mv, _mutants=None):
         E.check(info.get("piece length") == 2 ** 15, "C20.field.piece-length")
     elif opt == "meta-version":
         E.check(info.get("meta version") == 2, "C20.field.meta-version")
-    elif opt == "out":
-        E.check(metas["keyword"][1] == value, "C20.field.out.keyword")
-        E.check(flag_files == [value], "C20.field.out.flag", "flag route wrote %r" % (flag_files,))
-        E.check(cfg_files == [value], "C20.field.out.config", "config route wrote %r" % (cfg_files,))
+    elif opt in ("out", "out-dir", "out-relative"):
+        written = {"out": value, "out-dir": "/out/name.torrent", "out-relative": "/work/sub/rel.torrent"}[opt]
+        if opt == "out":
+            E.check(metas["keyword"][1] == value, "C20.field.out.keyword")
+        E.check(flag_files == [written], "C20.field.out.flag", "flag route wrote %r" % (flag_files,))
+        E.check(cfg_files == [written], "C20.field.out.config", "config route wrote %r" % (cfg_files,))
     for k_ in WITNESSES:
         if kind != "list":
             E.witnesses.setdefault("list option with two values", True)
@@ -264,6 +271,37 @@ def job_out_inside(E, mv, _mutants=None):
     for route in ("flag", "config"):
         E.check(ben_equal(metas[route], metas["keyword"], ordered=False), "C20.out-inside.%s-equals-keyword" % route,
                 "%s route gives %s, keyword route gives %s" % (route, _brief(metas[route]), _brief(metas["keyword"])))
+    for k_ in WITNESSES:
+        E.witnesses.setdefault(k_, True)
+
+
+def job_config_twice(E, mv, twice=True, _mutants=None):
+    """Two creates by one process through the same configuration file path, the file rewritten in between: the second
+    metafile carries the second file's options (what the equivalent keywords give)."""
+    fs, s = mkfs(E)
+    first = {"comment": OStr("first.comment", nonempty=True), "source": OStr("first.source", nonempty=True), "private": "true",
+             "piece-length": "16"}
+    second = {"comment": OStr("second.comment", nonempty=True), "piece-length": "15"}
+    fs.add_token("/cfg/t.ini", ("INI", {"config": first}))
+    w = World(fs, mutants=_mutants)
+    argv = ["create", "--prog", "0", "--meta-version", mv, "--config", "--config-path", "/cfg/t.ini"]
+    try:
+        w.mod("cli").execute(argv + ["-o", "/out/one.torrent", "/data/name"])
+        fs.add_token("/cfg/t.ini", ("INI", {"config": second}))
+        got = w.mod("cli").execute(argv + ["-o", "/out/two.torrent", "/data/name"]).meta
+        T = World(fs.clone(), mutants=_mutants).mod("torrent")
+        kw = dict(path="/data/name", outfile="/out/k.torrent", meta_version=mv, progress=0, comment=second["comment"], piece_length="15")
+        want = (T.TorrentFile(**kw) if mv == "1" else T.TorrentAssembler(**kw)).meta
+    except Unsupported:
+        raise
+    except SystemExit as ex:
+        E.fail("C20.config-twice.parser-accepts", str(ex))
+        return
+    except Exception as ex:  # noqa: BLE001
+        E.fail("C20.config-twice.no-exception", "%s: %s" % (type(ex).__name__, ex))
+        return
+    E.check(ben_equal(strip(got), strip(want), ordered=False), "C20.config-twice.second-equals-keyword",
+            "second create through the rewritten configuration file gives %s, the keywords give %s" % (_brief(got), _brief(want)))
     for k_ in WITNESSES:
         E.witnesses.setdefault(k_, True)
 
@@ -328,7 +366,7 @@ def replay(params, model, notes, workdir, seed):
     old = os.getcwd()
     os.chdir(workdir)
     try:
-        if "opt" not in params and "order" not in params:
+        if "opt" not in params and "order" not in params and not params.get("twice"):
             mv = params["mv"]
             root = os.path.join(workdir, "payload", "name")
             ms = {}
@@ -355,6 +393,23 @@ def replay(params, model, notes, workdir, seed):
                 except BaseException as ex:  # noqa: BLE001
                     return ["C20.out-inside.no-exception: %r" % (ex,)]
             return [("C20.out-inside.%s-equals-keyword" % r) for r in ("flag", "config") if ms[r] != ms["keyword"]]
+        if params.get("twice"):
+            mv = params["mv"]
+            ini = os.path.join(workdir, "t.ini")
+            argv = ["create", "--prog", "0", "--meta-version", mv, "--config", "--config-path", ini]
+            try:
+                with open(ini, "w") as f:
+                    f.write("[config]\ncomment = first comment\nsource = first source\nprivate = true\npiece-length = 16\n")
+                run_cli(argv + ["-o", os.path.join(out, "one.torrent"), data])
+                with open(ini, "w") as f:
+                    f.write("[config]\ncomment = second comment\npiece-length = 15\n")
+                got = run_cli(argv + ["-o", os.path.join(out, "two.torrent"), data]).meta
+                kw = dict(path=data, outfile=os.path.join(out, "k.torrent"), meta_version=mv, progress=0, comment="second comment", piece_length="15")
+                with contextlib.redirect_stdout(io.StringIO()):
+                    want = (T.TorrentFile(**kw) if mv == "1" else T.TorrentAssembler(**kw)).meta
+            except BaseException as ex:  # noqa: BLE001
+                return ["C20.config-twice.no-exception: %r" % (ex,)]
+            return [] if norm(got) == norm(want) else ["C20.config-twice.second-equals-keyword"]
         if "order" in params:
             nvals = params["nvals"]
             vals = {"announce": ["http://t/%d" % i for i in range(nvals)], "web-seed": ["http://w/%d" % i for i in range(nvals)],
@@ -390,6 +445,12 @@ def replay(params, model, notes, workdir, seed):
             value = kind.split(":", 1)[1]
             if opt == "out":
                 value = os.path.join(out, "other.torrent")
+            elif opt == "out-dir":
+                value = out + "/"
+            elif opt == "out-relative":
+                os.makedirs(os.path.join(workdir, "sub"), exist_ok=True)
+        isout = opt in ("out", "out-dir", "out-relative")
+        want_out = {"out": ("out", "other.torrent"), "out-dir": ("out", "name.torrent"), "out-relative": ("sub", "rel.torrent")}.get(opt)
         kwargs = dict(path=data, outfile=os.path.join(out, "k.torrent"), meta_version=mv, progress=0)
         kwargs[kw] = value
         bad = []
@@ -398,7 +459,7 @@ def replay(params, model, notes, workdir, seed):
             t.write()
         km = norm(t.meta)
         argv = ["create", "--prog", "0"]
-        if opt != "out":
+        if not isout:
             argv += ["-o", os.path.join(out, "f.torrent")]
         if opt != "meta-version":
             argv += ["--meta-version", mv]
@@ -407,6 +468,8 @@ def replay(params, model, notes, workdir, seed):
             res = run_cli(argv)
             if norm(res.meta) != km:
                 bad.append("C20.flag-equals-keyword")
+            if isout and not os.path.isfile(os.path.join(workdir, *want_out)):
+                bad.append("C20.field.out.flag")
         except BaseException as ex:  # noqa: BLE001
             bad.append("C20.flag.no-exception: %r" % (ex,))
         ini = os.path.join(workdir, "t.ini")
@@ -419,7 +482,7 @@ def replay(params, model, notes, workdir, seed):
         with open(ini, "w") as f:
             f.write("[config]\n%s = %s\n" % (ckey, rendered))
         argv = ["create", "--prog", "0", "--config", "--config-path", ini]
-        if opt != "out":
+        if not isout:
             argv += ["-o", os.path.join(out, "c.torrent")]
         if opt != "meta-version":
             argv += ["--meta-version", mv]
@@ -427,10 +490,12 @@ def replay(params, model, notes, workdir, seed):
         try:
             for f_ in os.listdir(out):
                 os.remove(os.path.join(out, f_))
+            if isout and os.path.exists(os.path.join(workdir, *want_out)):
+                os.remove(os.path.join(workdir, *want_out))
             res = run_cli(argv)
             if norm(res.meta) != km:
                 bad.append("C20.config-equals-keyword")
-            if opt == "out" and sorted(os.listdir(out)) != ["other.torrent"]:
+            if isout and not os.path.isfile(os.path.join(workdir, *want_out)):
                 bad.append("C20.field.out.config")
         except BaseException as ex:  # noqa: BLE001
             bad.append("C20.config.no-exception: %r" % (ex,))
